@@ -106,6 +106,7 @@ func RunLocker(t *testing.T, in *LockerIn, keepLog bool) *Result {
 	}()
 	verifhook.Hook = nil
 	verifhook.Dead = nil
+	runProgress.Add(1)
 	res := &Result{Violations: l.viols, Digest: l.sched.Digest(), Steps: l.sched.step, Preempts: l.sched.preempts, Counters: l.counter, HarnessErr: l.harness}
 	if keepLog {
 		res.Lines = l.sched.lines
@@ -258,6 +259,12 @@ func (l *lockerSim) root() {
 	}
 	if len(l.viols) == 0 && l.harness == "" && !fineAbandoned {
 		l.probe(base, gen, locker)
+	}
+	l.sched.mu.Lock()
+	tp := l.sched.taskPanic
+	l.sched.mu.Unlock()
+	if tp != "" {
+		l.violate("locker-panics", "the lock manager panicked: "+tp)
 	}
 	// end: free whatever is left
 	gen.dead.Store(true)
